@@ -246,7 +246,7 @@ def c06(ctx):
 
 # =========================================================================== C07 (front-end part; emitted constants are added by the back-end stage)
 def c07_front(ctx, acc):
-    g_parse(ctx, acc, 'c07g', 'MC_C07', cfg(['Seed = %d' % (ctx.seed % 100000), 'NRandom = %d' % pick(ctx, 6, 120)], ['EmitVector', 'EmitLetters']), PARSE_KINDS_TREE, timeout=3000)
+    g_parse(ctx, acc, 'c07g', 'MC_C07', cfg(['Seed = %d' % (ctx.seed % 100000), 'NRandom = %d' % pick(ctx, 6, 120)], ['EmitVector', 'EmitLetters', 'EmitBetween']), PARSE_KINDS_TREE, timeout=3000)
     t_parse(ctx, acc, 'c07t', ['--mode', 'numbers', '--count', str(pick(ctx, 3000, 30000)), '--seed', str(ctx.seed)], PARSE_KINDS_TREE)
 
 
